@@ -436,6 +436,33 @@ op("asformat", 1, lambda p, x: x, _asformat, gen_asformat)
 op("change_compressed_axes", 1, lambda p, x: x, _cca,
    lambda rng, xs, ctx: {"ca": sorted(rng.sample(range(xs[0].ndim), rng.randint(1, xs[0].ndim - 1)))} if xs[0].ndim >= 2 else None,
    minnd=2)
+def _dok_assign_np(p, x):
+    np = _np()
+    y = np.array(x, copy=True)
+    y[tuple(np.array(k, dtype=np.intp) for k in p["key"])] = np.array(p["vals"]).astype(y.dtype)
+    return y
+
+
+def _dok_assign_sp(p, x):
+    np, sp = _np(), _sp()
+    d = sp.DOK.from_coo(sp.asarray(x, format="coo"))
+    d[tuple(p["key"])] = np.array(p["vals"]).astype(d.dtype)
+    return d
+
+
+def _gen_dok_assign(rng, xs, ctx):
+    x = xs[0]
+    if x.ndim == 0 or any(d == 0 for d in x.shape):
+        return None
+    pos = {tuple(rng.randrange(d) for d in x.shape) for _ in range(rng.randint(1, 3))}
+    pos = sorted(pos)
+    # every coordinate spelled non-negative or negative (seeded C06-m6: negative entries stored as dictionary keys)
+    key = [[(c[a] - x.shape[a]) if rng.random() < 0.5 else c[a] for c in pos] for a in range(x.ndim)]
+    return {"key": key, "vals": [rng.choice([1, 2, -1, 5]) for _ in pos]}
+
+
+# DOK assignment through an integer-list key: the result's dictionary keys must be in-range index tuples
+op("dok_fancy_assign", 1, _dok_assign_np, _dok_assign_sp, _gen_dok_assign, minnd=1)
 op("tocoo", 1, lambda p, x: x, lambda p, x: x.asformat("coo") if not hasattr(x, "tocoo") else x.tocoo())
 op("todense", 1, lambda p, x: x, lambda p, x: x.todense(), ret="dense")
 op("copy", 1, lambda p, x: x, lambda p, x: x.copy())
@@ -772,6 +799,16 @@ def gen_directed(rng, tier):
             c = g.program()
             c["sweep"] = True
             cases.append(c)
+    # DOK assignment through integer-list keys with negative entries, on operands of every format and fill
+    for k in range(12 if tier == "quick" else 60):
+        fmt, ca = fmts[k % 4]
+        nd = 2 + k % 2
+        if fmt == "gcxs" and nd == 3:
+            ca = rng.choice([[0], [1], [2], [0, 1]])
+        g = Gen(rng, wild=True)
+        g.add_spec(dense_spec(arrs[nd], rng.choice([0, 0, 3]), fmt, ca))
+        if g.try_step("dok_fancy_assign", force_args=[0]):
+            cases.append(g.program())
     # products over every operand-kind pair and return type
     mats = [([[2, 2, 1], [-1, 1, -1]], [[0, 0, -2], [2, 0, -2], [2, -2, 0]]),
             ([[0, -1, -1], [0, 0, 1], [0, -2, 0]], [[-2, -2, -1, 0], [0, 1, -1, -1], [1, 2, -2, 0]]),
